@@ -655,6 +655,14 @@ def m_join(ex, st, args, kwargs, node):
     sep, it = args[0], args[1]
     d = slist_of(st, it)
     if d is None:
+        o = st.heap.get(it.ref) if isinstance(it, VRef) else None
+        if o is not None and o.kind == "olist":           # C17's open list (abstract prefix + appended tail): opaque result
+            if not (o.data["ekind"] == "str" and all(isinstance(x, VStr) for x in o.data["tail"])):
+                ex.exc_any(st.fork(), f"{ex.loc(node)} join of a list not known to hold only str")
+            return [(st, VStr(z3.String(fresh_name("join"))))]
+        if isinstance(it, VUnk):                          # join of an unknown iterable: may raise, result opaque (EXC-ANY)
+            ex.exc_any(st.fork(), f"{ex.loc(node)} join(unknown)")
+            return [(st, VStr(z3.String(fresh_name("join"))))]
         raise Unsupported(f"{ex.loc(node)} join of {it!r}")
     c = sep.const()
     if c == "":
